@@ -177,8 +177,36 @@ func ahtHistory(r *vk.Run, maxN int, withProofs bool) error {
 		mip = append(mip, fmt.Sprintf("(%d, %d, %s)", i, j, look(ip)))
 		mcp = append(mcp, fmt.Sprintf("(%d, %d, %s)", i, j, look(cp)))
 	}
+	// arguments outside 1 <= i <= j <= size: outcome classes (proof / error / panic), and the
+	// proofs the generators return for the unguarded i = 0
+	class := func(f func() ([]dig, error)) (c int, p []dig) {
+		defer func() {
+			if recover() != nil {
+				c = 2
+			}
+		}()
+		p, err := f()
+		if err != nil {
+			return 1, nil
+		}
+		return 0, p
+	}
+	var edges []string
+	un := uint64(n)
+	for _, e := range [][2]uint64{{0, 0}, {0, 1}, {0, un}, {un + 1, un}, {1, un + 1}, {un + 1, un + 1}, {2, 1}, {0, un + 1}} {
+		i, j := e[0], e[1]
+		ci, ip := class(func() ([]dig, error) { return t.InclusionProof(i, j) })
+		cc, cp := class(func() ([]dig, error) { return t.ConsistencyProof(i, j) })
+		edges = append(edges, fmt.Sprintf("(%d, %d, %d, %d)", i, j, ci, cc))
+		if ci == 0 {
+			mip = append(mip, fmt.Sprintf("(%d, %d, %s)", i, j, look(ip)))
+		}
+		if cc == 0 {
+			mcp = append(mcp, fmt.Sprintf("(%d, %d, %s)", i, j, look(cp)))
+		}
+	}
 	emitModel := func() {
-		r.Case(fmt.Sprintf("CAhtModel %s %s %s %s %s", vk.List(mops), digList(digs), look(roots), vk.List(mip), vk.List(mcp)),
+		r.Case(fmt.Sprintf("CAhtModel %s %s %s %s %s %s", vk.List(mops), digList(digs), look(roots), vk.List(mip), vk.List(mcp), vk.List(edges)),
 			map[string]any{"kind": "ahtmodel", "ops": strings.Join(ops, ","), "n": n, "digests": len(digs), "pairs": len(mip)},
 			"aht/model", n >= 3 && n&(n-1) != 0)
 	}
@@ -306,8 +334,20 @@ func mutateProofs(r *vk.Run, payloads [][]byte, roots []dig, ip, cp []dig, i, j 
 	verCons(r, roots, cp, 0, uint64(j), roots[i-1], roots[j-1], "i-zero")
 }
 
+// accepted (position, root) -> leaf: one root commits a position to at most one leaf (theorems
+// C08_ahtree_inclusion_proof_unique / C08_ahtree_last_inclusion_proof_unique), genuine root or not
+var accIncl = map[string]dig{}
+var accLast = map[string]dig{}
+
 func verIncl(r *vk.Run, payloads [][]byte, roots []dig, p []dig, i, j uint64, leaf, root dig, bucket string) {
 	v := ahtree.VerifyInclusion(p, i, j, leaf, root)
+	if v {
+		key := fmt.Sprintf("%d|%d|%x", i, j, root[:])
+		if prev, ok := accIncl[key]; ok && prev != leaf {
+			r.Finding(fmt.Sprintf("ahtree.VerifyInclusion accepted two different leaves (%x, %x) for i=%d j=%d against one root", prev[:4], leaf[:4], i, j))
+		}
+		accIncl[key] = leaf
+	}
 	r.Case(fmt.Sprintf("CVerIncl %s %d %d %s %s %s", digList(p), i, j, hx(leaf[:]), hx(root[:]), vk.Bool(v)),
 		map[string]any{"kind": "verincl", "terms": hexList(p), "i": i, "j": j, "leaf": hex.EncodeToString(leaf[:]), "root": hex.EncodeToString(root[:]), "verdict": v},
 		"verincl/"+bucket, true)
@@ -321,6 +361,13 @@ func verIncl(r *vk.Run, payloads [][]byte, roots []dig, p []dig, i, j uint64, le
 
 func verLast(r *vk.Run, payloads [][]byte, p []dig, i uint64, leaf, root dig, bucket string) {
 	v := ahtree.VerifyLastInclusion(p, i, leaf, root)
+	if v {
+		key := fmt.Sprintf("%d|%x", i, root[:])
+		if prev, ok := accLast[key]; ok && prev != leaf {
+			r.Finding(fmt.Sprintf("ahtree.VerifyLastInclusion accepted two different leaves (%x, %x) for i=%d against one root", prev[:4], leaf[:4], i))
+		}
+		accLast[key] = leaf
+	}
 	r.Case(fmt.Sprintf("CVerLast %s %d %s %s %s", digList(p), i, hx(leaf[:]), hx(root[:]), vk.Bool(v)),
 		map[string]any{"kind": "verlast", "terms": hexList(p), "i": i, "leaf": hex.EncodeToString(leaf[:]), "root": hex.EncodeToString(root[:]), "verdict": v},
 		"verlast/"+bucket, true)
@@ -543,6 +590,7 @@ func arithCases(r *vk.Run) {
 }
 
 func Gen(r *vk.Run, n int) error {
+	accIncl, accLast = map[string]dig{}, map[string]dig{}
 	shaCases(r, 20)
 	arithCases(r)
 	if err := resetReopenProbe(r); err != nil {
